@@ -6,7 +6,7 @@ use indexmap::IndexMap;
 
 use crate::{
     Data, Executor, IntrospectionMode, QueryEnv, Request, Response, SDLExportOptions, SchemaEnv,
-    ServerError, ServerResult, ValidationMode,
+    ServerError, ServerResult, ValidationMode, Value,
     dynamic::{
         DynamicRequest, FieldFuture, FieldValue, Object, ResolverContext, Scalar, SchemaError,
         Subscription, TypeRef, Union, field::BoxResolverFn, resolve::resolve_container,
@@ -170,8 +170,26 @@ impl SchemaBuilder {
 
         // create system scalars
         for ty in ["Int", "Float", "Boolean", "String", "ID"] {
-            self.types
-                .insert(ty.to_string(), Type::Scalar(Scalar::new(ty)));
+            // the built-in scalars check the values resolvers hand over (`null` is always fine)
+            let validator: fn(&Value) -> bool = match ty {
+                "Int" => |value| match value {
+                    Value::Number(n) => n.is_i64() || n.is_u64(),
+                    Value::Null => true,
+                    _ => false,
+                },
+                "Float" => |value| matches!(value, Value::Number(_) | Value::Null),
+                "Boolean" => |value| matches!(value, Value::Boolean(_) | Value::Null),
+                "String" => |value| matches!(value, Value::String(_) | Value::Null),
+                _ => |value| match value {
+                    Value::String(_) | Value::Null => true,
+                    Value::Number(n) => n.is_i64() || n.is_u64(),
+                    _ => false,
+                },
+            };
+            self.types.insert(
+                ty.to_string(),
+                Type::Scalar(Scalar::new(ty).validator(validator)),
+            );
         }
 
         // create introspection types
